@@ -22,7 +22,14 @@ type flusher interface {
 }
 
 func (f FlushComponent) Render(ctx context.Context, w io.Writer) (err error) {
-	if err = GetChildren(ctx).Render(ctx, w); err != nil {
+	// Take the children out of the context while rendering, as generated components do,
+	// so that components rendered inside don't receive them as their own children.
+	children := GetChildren(ctx)
+	_, v := getContext(ctx)
+	saved := v.children
+	v.children = nil
+	defer func() { v.children = saved }()
+	if err = children.Render(ctx, w); err != nil {
 		return err
 	}
 	switch w := w.(type) {
